@@ -25,7 +25,7 @@ ORDER = ["side_partial_cmp", "ub_partial_cmp", "ub_matches", "ub_try_into_range"
          "ubl_bounds_only", "ubl_is_sortable", "ubl_is_sorted", "ubl_has_negative_indices", "ubl_is_forward_only",
          "fast_try_from", "stream_try_from", "fb_try_from", "side_from_str", "ub_from_str",
          "ubl_unpack", "ubl_complement", "cut_bytes", "fast_output_parts", "fast_cut_record",
-         "fill_fields", "compress_delimiter", "trim", "maybe_replace", "fill_regex", "trim_regex", "read_and_cut_lines"]
+         "fill_fields", "compress_delimiter", "trim", "maybe_replace", "fill_regex", "trim_regex", "compress_regex", "read_and_cut_lines"]
 DEPS = {"ub_partial_cmp": ["side_partial_cmp"], "ub_from_range": ["ub_new"], "ub_unpack": ["ub_new", "ub_try_into_range"],
         "ub_complement": ["ub_try_into_range", "complement_std_range", "ub_from_range", "ub_new"],
         "ubl_is_sortable": ["ubl_bounds_only"], "ubl_is_sorted": ["ubl_bounds_only", "ub_partial_cmp", "side_partial_cmp"],
@@ -72,6 +72,7 @@ USES = {
     "trim": ["C01", "C12"],
     "maybe_replace": ["C01", "C16"],
     "read_and_cut_lines": ["C05"],
+    "compress_regex": ["C16"],
     "fill_regex": ["C16"],
     "trim_regex": ["C16"],
 }
